@@ -240,6 +240,21 @@ class DefGen:
         fields.insert(r.randrange(len(fields) + 1), anchor)
         d = {"id": did, "kind": kind, "name": name, "apiKey": api_key, "valid": [lo, hi],
              "flex": [flex, OPEN] if flex is not None else NONE, "fields": fields, "common": []}
+        if r.random() < 0.6:
+            # upstream definitions of one API (request and response) declare common structs of the
+            # same name; many definitions here do too, some of them use it
+            cused: set = set()
+            d["common"].append({"name": "SharedThing", "versions": [lo, OPEN],
+                                "fields": [self.prim_field(cused, lo, hi, None) for _ in range(r.choice([1, 2]))]})
+            for g in d["common"][0]["fields"]:
+                g["versions"] = [lo, OPEN]
+                g["tagged"], g["tag"] = NONE, -1
+                if g["hasdefault"] and "null" in g["default"]:
+                    g["nullable"] = [lo, OPEN]
+            if r.random() < 0.5:
+                fields.append({"name": self.fname(used), "t": "SharedThing", "tk": "csarr", "versions": [lo, OPEN],
+                               "nullable": NONE, "tagged": NONE, "tag": -1, "hasdefault": False, "default": NULL,
+                               "spelling": None, "ignorable": False, "etype": "", "fields": []})
         return d
 
     def _assign_tags(self, fields: list[dict]) -> None:
